@@ -12,6 +12,10 @@ import (
 	"github.com/privacybydesign/gabi/zkproof"
 )
 
+// VerifDegenerateMultiple selects the degenerate commitment the Byzantine prover uses: this multiple
+// of the group prime (0, 1, 2, ...).
+var VerifDegenerateMultiple = 0
+
 // verifDegenerateIsSquareCommit mirrors isSquareProofStructure.commitmentsFromSecrets, but it
 // does not need (and does not have) square roots of the bases: the "roots" are all 1
 // and the commitment to N is the degenerate value 0.
@@ -23,6 +27,10 @@ func verifDegenerateIsSquareCommit(s *isSquareProofStructure, g zkproof.Group, l
 		rootValidCommit: make([]multiplicationProofCommit, len(s.squares)),
 	}
 	zero := func() *big.Int { return big.NewInt(0) }
+	degenerate := func() *big.Int {
+		// 0 or a multiple of the group prime: every power of it is 0 modulo the prime
+		return new(big.Int).Mul(g.P, big.NewInt(int64(VerifDegenerateMultiple)))
+	}
 
 	for i, val := range s.squares {
 		list, commit.squares[i] = s.squaresPedersen[i].commitmentsFromSecrets(g, list, val)
@@ -35,9 +43,9 @@ func verifDegenerateIsSquareCommit(s *isSquareProofStructure, g zkproof.Group, l
 	// degenerate commitment to N
 	off := len(list)
 	list, commit.n = s.nPedersen.commitmentsFromSecrets(g, list, s.n)
-	commit.n.commit = zero() // this is what ends up in proof.BasesValidProof.NProof.Commit
-	list[off] = zero()       // the commitment itself
-	list[off+1] = zero()     // 0^challenge * g^.. * h^.. = 0
+	commit.n.commit = degenerate() // this is what ends up in proof.BasesValidProof.NProof.Commit
+	list[off] = degenerate()       // the commitment itself
+	list[off+1] = zero()           // 0^challenge * g^.. * h^.. = 0
 
 	var baseList []zkproof.BaseLookup
 	var secretList []zkproof.SecretLookup
